@@ -4,6 +4,7 @@ import (
 	"encoding/base64"
 	"fmt"
 	"net/http"
+	"net/url"
 	"strings"
 )
 
@@ -19,6 +20,13 @@ import (
 // verbs, but outside the core functionality, the clean separation starts
 // to degrade, especially around multipart uploads.
 func (g *GoFakeS3) routeBase(w http.ResponseWriter, r *http.Request) {
+	// net/url refuses a query parameter that contains a ';' and Query() drops
+	// it without a word: 'prefix=a;b' would list the whole bucket. S3 splits a
+	// query on '&' only, so the ';' is data.
+	if strings.Contains(r.URL.RawQuery, ";") {
+		r.URL.RawQuery = strings.Replace(r.URL.RawQuery, ";", "%3B", -1)
+	}
+
 	var (
 		path   = strings.Trim(r.URL.Path, "/")
 		parts  = strings.SplitN(path, "/", 2)
@@ -39,7 +47,12 @@ func (g *GoFakeS3) routeBase(w http.ResponseWriter, r *http.Request) {
 		object = parts[1]
 	}
 
-	if uploadID := UploadID(query.Get("uploadId")); uploadID != "" {
+	if _, qerr := url.ParseQuery(r.URL.RawQuery); qerr != nil {
+		// A parameter that cannot be decoded ('prefix=100%') must not be
+		// taken for an absent one.
+		err = ErrorMessage(ErrInvalidURI, qerr.Error())
+
+	} else if uploadID := UploadID(query.Get("uploadId")); uploadID != "" {
 		err = g.routeMultipartUpload(bucket, object, uploadID, w, r)
 
 	} else if _, ok := query["uploads"]; ok {
